@@ -13,20 +13,53 @@ open Opus Opus.RangeCoder Opus.CeltSymsEnc
 open Opus.CeltBandsEnc (ESt)
 open Opus.CeltBands (BSt)
 
-/-- encoder model state and decoder model state at the same point of the packet, with the same `remaining_bits` -/
-structure Sim (w : World) (P0 : List Op) (e : ESt) (d : BSt) : Prop where
+open Opus.CeltSyms (CEv)
+
+/-- the entropy-decoder events C03's model records for one call of the packet, answered from decoder state `c` -/
+def evOf (c : Dec) : Op → List CEv
+  | .uint _ ft => [.uint ft (decUint c ft).1]
+  | .bits _ n => [.raw n (decBits c n).1]
+  | .bitLogp _ logp => [.bit logp (decBitLogp c logp).1]
+  | .encode fl fh ft => [.dec ft (RangeCoder.decode c ft).1, .upd fl fh ft]
+  | _ => []
+
+/-- … for the calls `ops` that follow the calls `P` -/
+def evsFrom (w : World) (P : List Op) : List Op → List CEv
+  | [] => []
+  | op :: r => evOf (w.decAt P) op ++ evsFrom w (P ++ [op]) r
+
+theorem evsFrom_append (w : World) : ∀ (B : List Op) (P : List Op) (op : Op),
+    evsFrom w P (B ++ [op]) = evsFrom w P B ++ evOf (w.decAt (P ++ B)) op
+  | [], P, op => by simp [evsFrom]
+  | b :: B, P, op => by
+    simp only [List.cons_append, evsFrom, evsFrom_append w B (P ++ [b]) op, List.append_assoc, List.nil_append]
+
+/-- encoder model state and decoder model state at the same point of the packet, with the same `remaining_bits`;
+    the decoder model's trace (most recent first) is the event list of the encoder's calls behind `A` -/
+structure Sim (w : World) (P0 : List Op) (A : List Op) (e : ESt) (d : BSt) : Prop where
   here : Here w P0 e.s d.c
   rem : e.rem = d.rem
+  tr : ∃ B, e.s.ops = A ++ B ∧ d.tr.reverse = evsFrom w (P0 ++ A) B
+
+/-- one more call: the trace grows by its events -/
+theorem Sim.tr_emit {w : World} {P0 A : List Op} {e : ESt} {d : BSt} (hs : Sim w P0 A e d) (op : Op) (tr' : List CEv)
+    (h1 : tr' = (evOf d.c op).reverse ++ d.tr) :
+    ∃ B, (e.s.pop.2.emit op).ops = A ++ B ∧ tr'.reverse = evsFrom w (P0 ++ A) B := by
+  obtain ⟨B, hB, hT⟩ := hs.tr
+  refine ⟨B ++ [op], by rw [emit_ops, pop_ops, hB, List.append_assoc], ?_⟩
+  rw [h1, List.reverse_append, List.reverse_reverse, hT, evsFrom_append, hs.here.dec, hB, List.append_assoc]
 
 /-- `fe` only appends calls; and from states in lock-step, if what `fe` writes is in the packet, `fd` reads it back and
     ends in lock-step -/
 def Step (w : World) (P0 : List Op) (fe : ESt → ESt) (fd : BSt → BSt) : Prop :=
-  ∀ e d, Ext0 e.s (fe e).s ∧ (Sim w P0 e d → w.IsPrefix (P0 ++ (fe e).s.ops) → Sim w P0 (fe e) (fd d))
+  ∀ e d, Ext0 e.s (fe e).s ∧
+    (∀ {A : List Op}, Sim w P0 A e d → w.IsPrefix (P0 ++ (fe e).s.ops) → Sim w P0 A (fe e) (fd d))
 
 /-- the same for a call that also returns a value: the decoder gets the encoder's value -/
 def StepV {α : Type} (w : World) (P0 : List Op) (fe : ESt → α × ESt) (fd : BSt → α × BSt) : Prop :=
   ∀ e d, Ext0 e.s (fe e).2.s ∧
-    (Sim w P0 e d → w.IsPrefix (P0 ++ (fe e).2.s.ops) → (fd d).1 = (fe e).1 ∧ Sim w P0 (fe e).2 (fd d).2)
+    (∀ {A : List Op}, Sim w P0 A e d → w.IsPrefix (P0 ++ (fe e).2.s.ops) →
+      (fd d).1 = (fe e).1 ∧ Sim w P0 A (fe e).2 (fd d).2)
 
 theorem Ext0.refl (s : St) : Ext0 s s := ⟨[], by simp⟩
 theorem Ext0.step (s : St) (op : Op) : Ext0 s (s.pop.2.emit op) := ⟨[op], rfl⟩
@@ -41,7 +74,7 @@ theorem Step.comp {w : World} {P0 : List Op} {f1 f2 : ESt → ESt} {g1 g2 : BSt 
   exact (h2 (f1 e) (g1 d)).2 ((h1 e d).2 hs (prefix_of_ext0 (h2 (f1 e) (g1 d)).1 hp)) hp
 
 /-- lock-step gives equal `ec_tell`, `ec_tell_frac` -/
-theorem Sim.tells {w : World} {P0 : List Op} {e : ESt} {d : BSt} (h : Sim w P0 e d) (hp : w.IsPrefix (P0 ++ e.s.ops)) :
+theorem Sim.tells {w : World} {P0 A : List Op} {e : ESt} {d : BSt} (h : Sim w P0 A e d) (hp : w.IsPrefix (P0 ++ e.s.ops)) :
     tell d.c = tell e.s.e ∧ tellFrac d.c = tellFrac e.s.e := by
   obtain ⟨a, b, _, _⟩ := h.here.tells hp
   exact ⟨a, b⟩
@@ -52,19 +85,19 @@ theorem uint_step (w : World) (P0 : List Op) (ft : Nat) : StepV w P0 (fun e => e
   intro e d
   refine ⟨Ext0.step _ _, fun hs hp => ?_⟩
   obtain ⟨a, b⟩ := hs.here.pop.emit_uint e.s.pop.1.toNat ft hp
-  exact ⟨a, ⟨b, hs.rem⟩⟩
+  exact ⟨a, ⟨b, hs.rem, hs.tr_emit (.uint e.s.pop.1.toNat ft) _ rfl⟩⟩
 
 theorem raw_step (w : World) (P0 : List Op) (n : Nat) : StepV w P0 (fun e => e.raw n) (fun d => d.raw n) := by
   intro e d
   refine ⟨Ext0.step _ _, fun hs hp => ?_⟩
   obtain ⟨a, b⟩ := hs.here.pop.emit_bits e.s.pop.1.toNat n hp
-  exact ⟨a, ⟨b, hs.rem⟩⟩
+  exact ⟨a, ⟨b, hs.rem, hs.tr_emit (.bits e.s.pop.1.toNat n) _ rfl⟩⟩
 
 theorem bit_step (w : World) (P0 : List Op) (logp : Nat) : StepV w P0 (fun e => e.bit logp) (fun d => d.bit logp) := by
   intro e d
   refine ⟨Ext0.step _ _, fun hs hp => ?_⟩
   obtain ⟨a, b⟩ := hs.here.pop.emit_bit (if e.s.pop.1 ≠ 0 then 1 else 0) logp (bit_le_one _) hp
-  exact ⟨a, ⟨b, hs.rem⟩⟩
+  exact ⟨a, ⟨b, hs.rem, hs.tr_emit (.bitLogp (if e.s.pop.1 ≠ 0 then 1 else 0) logp) _ rfl⟩⟩
 
 /-- forgetting the value -/
 theorem StepV.snd {α : Type} {w : World} {P0 : List Op} {fe : ESt → α × ESt} {fd : BSt → α × BSt} (h : StepV w P0 fe fd) :
@@ -94,9 +127,9 @@ theorem fineLoop_step (w : World) (P0 : List Op) (C : Nat) : ∀ l : List Int,
 /-- one priority pass of the finalisation: same bits left, lock-step -/
 theorem finalPass_step (w : World) (P0 : List Op) (C : Nat) (prio : Int) : ∀ (l : List (Int × Int)) (bl : Int) (e : ESt) (d : BSt),
     Ext0 e.s (Opus.CeltBandsEnc.finalPass C prio l bl e).2.s ∧
-    (Sim w P0 e d → w.IsPrefix (P0 ++ (Opus.CeltBandsEnc.finalPass C prio l bl e).2.s.ops) →
+    (∀ {A : List Op}, Sim w P0 A e d → w.IsPrefix (P0 ++ (Opus.CeltBandsEnc.finalPass C prio l bl e).2.s.ops) →
       (Opus.CeltBands.finalPass C prio l bl d).1 = (Opus.CeltBandsEnc.finalPass C prio l bl e).1 ∧
-      Sim w P0 (Opus.CeltBandsEnc.finalPass C prio l bl e).2 (Opus.CeltBands.finalPass C prio l bl d).2)
+      Sim w P0 A (Opus.CeltBandsEnc.finalPass C prio l bl e).2 (Opus.CeltBands.finalPass C prio l bl d).2)
   | [], bl, e, d => ⟨Ext0.refl _, fun h _ => ⟨rfl, h⟩⟩
   | (fq, pr) :: r, bl, e, d => by
     unfold Opus.CeltBandsEnc.finalPass Opus.CeltBands.finalPass
@@ -136,7 +169,7 @@ theorem n1One_step (w : World) (P0 : List Op) : Step w P0 Opus.CeltBandsEnc.n1On
     have hd : d.rem ≥ 8 := by rw [← hs.rem]; exact h
     simp only [hd, if_true]
     obtain ⟨_, b⟩ := (raw_step w P0 1 e d).2 hs hp
-    exact ⟨b.here, by show (e.raw 1).2.rem - 8 = (d.raw 1).2.rem - 8; rw [b.rem]⟩
+    exact ⟨b.here, by show (e.raw 1).2.rem - 8 = (d.raw 1).2.rem - 8; rw [b.rem], b.tr⟩
   · simp only [h, if_false]
     refine ⟨Ext0.refl _, fun hs _ => ?_⟩
     have hd : ¬ d.rem ≥ 8 := by rw [← hs.rem]; exact h
